@@ -161,8 +161,17 @@ class Gen:
           k = d(st.integers(1, t[1] - 1)); o = d(st.integers(0, srcw - t[1]))
           if d(st.booleans()):
             conns.append(f"s.{attr}[0:{k}] //= s.srcw[{o}:{o + k}]")
+            if d(st.booleans()):
+              # the same bits again through a nested slice, after the direct slice object exists
+              sink_id += 1
+              L.append(f"    s.snk{sink_id} = Wire( Bits{k} )")
+              conns.append(f"s.snk{sink_id} //= s.{attr}[0:{t[1]}][0:{k}]")
           else:                                      # slice of a slice: pymtl3 normalises it to a slice of the signal
             conns.append(f"s.{attr}[0:{t[1]}][0:{k}] //= s.srcw[0:{srcw}][{o}:{o + k}]")
+            if d(st.booleans()):
+              # the same bits reached a second time by the direct route and by another nesting
+              mat.append(f"s.{attr}[0:{k}]")
+              mat.append(f"s.srcw[{o}:{o + k}]")
           conns.append(f"connect( s.srcw[{o + k}:{o + t[1]}], s.{attr}[{k}:{t[1]}] )")
         else:
           o = d(st.integers(0, srcw - t[1]))
